@@ -21,6 +21,7 @@ mod model;
 mod payload;
 mod rate14;
 mod rxsynth;
+mod solo;
 mod util;
 mod wire;
 
@@ -239,6 +240,12 @@ fn run_scenario(family: &str, seed: u64, idx: u64, params: &Params) -> ScnOut {
         }
         "ack-storm" => {
             hostile::run_ack_storm_batch(scn_seed, params, &mut out);
+        }
+        "solo-api" => {
+            solo::run_batch(scn_seed, params, &mut out);
+        }
+        "pid-lap" => {
+            rxsynth::run_pid_lap(scn_seed, &mut out);
         }
         "frag-rx" => {
             rxsynth::run_batch(scn_seed, params, &mut out);
